@@ -140,6 +140,34 @@ fn examine(tally: &mut Tally, loc: &ReplicaLocator, strategy: &Strategy, token: 
                 return Some(format!("nth({k}) then next() = ({a:?}, {b:?}); iteration {iter:?} says ({wa:?}, {wb:?})"));
             }
         }
+        if demand.reject {
+            // Iterator contract beside next/nth: size_hint brackets what is left at every step, a clone taken mid-way
+            // yields the same rest, count() and last() agree with the iteration
+            let mut it = fresh().into_iter();
+            let mut ord = fresh().into_replicas_ordered().into_iter();
+            for k in 0..=iter.len() {
+                let left = iter.len() - k;
+                let (lo, hi) = it.size_hint();
+                if lo > left || hi.is_some_and(|h| h < left) {
+                    return Some(format!("[contract] size_hint() after {k} elements is ({lo}, {hi:?}) but {left} elements follow (iteration {iter:?})"));
+                }
+                let rest: Vec<usize> = it.clone().map(|(n, _)| idx(n)).collect();
+                if rest != iter[k..] {
+                    return Some(format!("[contract] a clone taken after {k} elements yields {rest:?}, the iteration continues with {:?}", &iter[k..]));
+                }
+                let oleft = ordered.len().saturating_sub(k);
+                let (olo, ohi) = ord.size_hint();
+                if demand.ordered == OrderedDemand::Exact && (olo > oleft || ohi.is_some_and(|h| h < oleft)) {
+                    return Some(format!("[contract] ring-ordered view: size_hint() after {k} elements is ({olo}, {ohi:?}) but {oleft} elements follow ({ordered:?})"));
+                }
+                it.next();
+                ord.next();
+            }
+            let (cnt, last) = (fresh().into_iter().count(), fresh().into_iter().last().map(|(n, _)| idx(n)));
+            if cnt != iter.len() || last != iter.last().copied() {
+                return Some(format!("[contract] count() = {cnt}, last() = {last:?}; iteration {iter:?}"));
+            }
+        }
         // a partly consumed iterator: nth(a) then nth(b) is element a+b+1
         for a in 0..if demand.reject { iter.len() } else { 0 } {
             for b in 0..=iter.len() - a {
@@ -155,6 +183,7 @@ fn examine(tally: &mut Tally, loc: &ReplicaLocator, strategy: &Strategy, token: 
         None
     }));
     match nth {
+        Ok(Some(c)) if c.starts_with("[contract] ") => bad.push(("iterator-contract", c)),
         Ok(Some(c)) => bad.push(("nth", c)),
         Ok(None) => {}
         Err(p) => bad.push(("panic", format!("nth panicked at {}: {p}", vcore::last_panic_location()))),
@@ -237,6 +266,8 @@ fn build_clusters(c: &Concrete, ring: &Ring, strats: &[Strat], sparse_variants: 
 
 #[derive(Clone)]
 struct Params {
+    /// additionally strategies with the largest replication factor a server accepts (i32::MAX)
+    huge_rf: bool,
     family: Family,
     sparse_variants: usize,
     dense_tokens: bool,
@@ -244,10 +275,10 @@ struct Params {
 }
 impl Params {
     fn to_json(&self) -> Value {
-        json!({"family": self.family.to_json(), "sparse_variants": self.sparse_variants, "dense_tokens": self.dense_tokens, "ask_never_mentioned_dc": self.ask_never_mentioned_dc})
+        json!({"huge_rf": self.huge_rf, "family": self.family.to_json(), "sparse_variants": self.sparse_variants, "dense_tokens": self.dense_tokens, "ask_never_mentioned_dc": self.ask_never_mentioned_dc})
     }
     fn from_json(v: &Value) -> Params {
-        Params { family: Family::from_json(&v["family"]), sparse_variants: v["sparse_variants"].as_u64().unwrap_or(1) as usize, dense_tokens: v["dense_tokens"].as_bool().unwrap_or(true), ask_never_mentioned_dc: v["ask_never_mentioned_dc"].as_bool().unwrap_or(true) }
+        Params { huge_rf: v["huge_rf"].as_bool().unwrap_or(false), family: Family::from_json(&v["family"]), sparse_variants: v["sparse_variants"].as_u64().unwrap_or(1) as usize, dense_tokens: v["dense_tokens"].as_bool().unwrap_or(true), ask_never_mentioned_dc: v["ask_never_mentioned_dc"].as_bool().unwrap_or(true) }
     }
 }
 
@@ -261,7 +292,16 @@ fn run_topology(env: &Env, c: &Concrete, absent_dc: &str, topo_rank: u64, p: &Pa
     let ring = c.ring();
     let dup = ring.duplicate_tokens();
     let dup_dc = ring.duplicate_tokens_within_a_dc();
-    let strats = topo::strategies(c, absent_dc, &p.family);
+    let mut strats = topo::strategies(c, absent_dc, &p.family);
+    if p.huge_rf {
+        const HUGE: usize = i32::MAX as usize;
+        strats.push(Strat::Simple(HUGE));
+        let dcs = ring.datacenters();
+        strats.push(Strat::Nts(dcs.iter().map(|d| (d.clone(), HUGE)).chain(std::iter::once((absent_dc.to_string(), HUGE))).collect()));
+        if let Some(d) = dcs.first() {
+            strats.push(Strat::Nts(vec![(d.clone(), HUGE)]));
+        }
+    }
     let clusters = match build_clusters(c, &ring, &strats, p.sparse_variants) {
         Ok(x) => x,
         Err(pn) => {
@@ -275,6 +315,36 @@ fn run_topology(env: &Env, c: &Concrete, absent_dc: &str, topo_rank: u64, p: &Pa
         let got: Vec<usize> = loc.unique_nodes_in_global_ring().iter().map(idx).collect();
         if got != ring.token_owners() && !dup {
             env.sink.report("ring:unique-nodes", topo_rank << 24, || (format!("unique_nodes_in_global_ring = {got:?}, ring order of token owners is {:?}", ring.token_owners()), case_json(c, absent_dc, &Strat::Local, 0, p)));
+        }
+        // per-datacenter node lists (what the load balancer calls "local nodes") and the public token ring
+        for dc in ring.datacenters() {
+            let got: Option<Vec<usize>> = loc.unique_nodes_in_datacenter_ring(&dc).map(|v| v.iter().map(idx).collect());
+            let want: Vec<usize> = ring.token_owners().into_iter().filter(|n| ring.nodes[*n].dc.as_deref() == Some(dc.as_str())).collect();
+            if !dup && got.as_ref() != Some(&want) {
+                env.sink.report("ring:datacenter-nodes", topo_rank << 24, || (format!("unique_nodes_in_datacenter_ring({dc}) = {got:?}, ring order of that datacenter's token owners is {want:?}"), case_json(c, absent_dc, &Strat::Local, 0, p)));
+            }
+        }
+        if loc.unique_nodes_in_datacenter_ring(absent_dc).is_some() {
+            env.sink.report("ring:datacenter-nodes", topo_rank << 24, || (format!("unique_nodes_in_datacenter_ring({absent_dc}) answers for a datacenter without token owners"), case_json(c, absent_dc, &Strat::Local, 0, p)));
+        }
+        {
+            let mut got: Vec<(i64, usize)> = loc.ring().iter().map(|(t, n)| (t.value(), idx(n))).collect();
+            let sorted_by_token = got.windows(2).all(|w| w[0].0 <= w[1].0);
+            let mut want = ring.entries.clone();
+            got.sort_unstable();
+            want.sort_unstable();
+            if got != want || !sorted_by_token || loc.ring().len() != want.len() || loc.ring().is_empty() != want.is_empty() {
+                env.sink.report("ring:entries", topo_rank << 24, || (format!("ring() holds {got:?} (sorted by token: {sorted_by_token}, len {}), the metadata says {want:?}", loc.ring().len()), case_json(c, absent_dc, &Strat::Local, 0, p)));
+            }
+            if !dup {
+                for t in ring.query_tokens(false) {
+                    let owner = loc.ring().get_elem_for_token(Token::new(t)).map(idx);
+                    let walk: Vec<usize> = loc.ring().ring_range(Token::new(t)).map(idx).collect();
+                    if owner != ring.walk(t).first().copied() || walk != ring.walk(t) {
+                        env.sink.report("ring:walk", topo_rank << 24, || (format!("ring().get_elem_for_token({t}) = {owner:?}, ring_range = {walk:?}; clockwise from {t} the ring is {:?}", ring.walk(t)), case_json(c, absent_dc, &Strat::Local, t, p)));
+                    }
+                }
+            }
         }
         let dcs: BTreeSet<String> = loc.datacenter_names().iter().cloned().collect();
         let want: BTreeSet<String> = ring.datacenters().into_iter().collect();
@@ -399,7 +469,16 @@ fn replay(env: &Env, case: &Value) {
     println!("replay: nodes = {:?}", ring.nodes);
     println!("replay: strategy = {}, token = {tok}", topo::strat_to_json(&s));
     println!("replay: reference placement in ring order = {:?}", ring.replicas_ring_order(Token::new(tok).value(), &s));
-    let strats = topo::strategies(&c, &absent, &p.family);
+    let mut strats = topo::strategies(&c, &absent, &p.family);
+    if p.huge_rf {
+        const HUGE: usize = i32::MAX as usize;
+        strats.push(Strat::Simple(HUGE));
+        let dcs = ring.datacenters();
+        strats.push(Strat::Nts(dcs.iter().map(|d| (d.clone(), HUGE)).chain(std::iter::once((absent.clone(), HUGE))).collect()));
+        if let Some(d) = dcs.first() {
+            strats.push(Strat::Nts(vec![(d.clone(), HUGE)]));
+        }
+    }
     // the artefact's strategy is matched structurally (NTS entries as a map)
     let canon = |s: &Strat| match s {
         Strat::Nts(e) => {
@@ -468,6 +547,7 @@ fn params_for(t: &Topo, thorough: bool) -> Params {
     if thorough {
         let heavy = slots >= 6 && nodes >= 4 || nodes >= 5 || slots >= 7;
         Params {
+            huge_rf: slots <= 2,
             family: if heavy { Family { rf_extra: 1, absent_rfs: vec![1] } } else { Family { rf_extra: 2, absent_rfs: vec![0, 1, 2] } },
             sparse_variants: 2,
             dense_tokens: !heavy,
@@ -477,6 +557,7 @@ fn params_for(t: &Topo, thorough: bool) -> Params {
         let light = slots <= 3;
         let heavy = slots >= 5 && nodes >= 4;
         Params {
+            huge_rf: slots <= 2,
             family: if light {
                 Family { rf_extra: 2, absent_rfs: vec![0, 1, 2] }
             } else if heavy {
@@ -551,7 +632,7 @@ fn main() {
         for (t, n) in &pinned.entries {
             nodes[*n].tokens.push(*t);
         }
-        let p = Params { family: Family { rf_extra: 1, absent_rfs: vec![2] }, sparse_variants: 2, dense_tokens: false, ask_never_mentioned_dc: true };
+        let p = Params { huge_rf: true, family: Family { rf_extra: 1, absent_rfs: vec![2] }, sparse_variants: 2, dense_tokens: false, ask_never_mentioned_dc: true };
         run_topology(&env, &Concrete { nodes }, "unknown", u32::MAX as u64, &p, None);
         r.counters.add("pinned_seven_node_ring_triples", r.evaluations.load(Ordering::Relaxed));
     }
@@ -574,12 +655,19 @@ fn main() {
             }
         }
     });
+    // clusters whose ring is empty (known peers, none owns a token): every answer is the empty set, nothing panics
+    for k in 1..=2usize {
+        let c = Concrete { nodes: (0..k).map(|i| topo::CNode { dc: Some(SPELLINGS[0].dcs[i % 2].to_string()), rack: Some(SPELLINGS[0].racks[0].to_string()), tokens: vec![] }).collect() };
+        let p = Params { huge_rf: true, family: Family { rf_extra: 2, absent_rfs: vec![0, 1] }, sparse_variants: 1, dense_tokens: true, ask_never_mentioned_dc: true };
+        run_topology(&env, &c, "dcX", (n_topos as u64) * 5 + k as u64, &p, None);
+        r.counters.add("clusters_with_an_empty_ring", 1);
+    }
     // SAMPLED sweep at the scale the property names (up to 12 nodes x 3 DCs x 4 racks, vnodes, random
     // full-range tokens): seeded, labelled sampled, not what the coverage claim rests on.
     {
         let n_big = if thorough { 1500 } else { 40 };
         let seed = r.args.seed;
-        let p = Params { family: Family { rf_extra: 1, absent_rfs: vec![1] }, sparse_variants: 1, dense_tokens: false, ask_never_mentioned_dc: false };
+        let p = Params { huge_rf: false, family: Family { rf_extra: 1, absent_rfs: vec![1] }, sparse_variants: 1, dense_tokens: false, ask_never_mentioned_dc: false };
         let p_ref = &p;
         let triples_before = r.evaluations.load(Ordering::Relaxed);
         vcore::par::for_range(r.args.jobs, n_big, |i| {
